@@ -1,7 +1,7 @@
 /-
 C07 - code model of the client side of the DBus authentication handshake.
 
-Mirrors, as written (after the repairs fixes/C07-01..04):
+Mirrors, as written (after the repairs fixes/C07-01..05):
 
   txdbus/authentication.py  class ClientAuthenticator
       beginAuthentication, handleAuthMessage, authTryNextMethod,
@@ -30,6 +30,7 @@ inductive CookieErr where
   | oddLength   -- binascii.Error('Odd-length string')
   | nonHex      -- binascii.Error('Non-hexadecimal digit found')
   | arity       -- ValueError: `cookie_context, cookie_id, server_challenge = data.split()`
+  | badContext  -- 'Invalid cookie context name' (a character the DBus specification forbids)
   | stat        -- OSError from os.stat(cookie_dir)
   | perms       -- 'User keyrings directory is writeable by other users. Aborting authentication'
   | owner       -- 'Keyrings directory is not owned by the current user. Aborting authentication!'
@@ -137,8 +138,18 @@ def findCookie (cookieId : Bytes) : List Bytes → Option Bytes
     | [kId, _kTime, kCookie] => if kId = cookieId then some kCookie else findCookie cookieId ls
     | _ => findCookie cookieId ls
 
+/-- The characters the DBus specification forbids in a cookie context name:
+`/`, `\`, space, newline, carriage return, tab, `.` -/
+def forbiddenInContext : Bytes := [47, 92, 32, 10, 13, 9, 46]
+
+/-- The test at the top of `_authGetDBusCookie`: the name comes from the server and is joined to the
+keyring path, so it is refused before the file system is touched. -/
+def contextOk (ctx : Bytes) : Bool :=
+  !ctx.isEmpty && ctx.all (fun b => !forbiddenInContext.contains b)
+
 /-- `_authGetDBusCookie` -/
 def getCookie (env : Env) (ctx cookieId : Bytes) : Except CookieErr (Option Bytes) :=
+  if !contextOk ctx then .error .badContext else
   match env.dirStat with
   | none => .error .stat
   | some (mode, owned) =>
